@@ -92,7 +92,41 @@ class NpC10Models:
         A.elems = R.elems if R.kind == A.kind else _NP.lam(A.rank, lambda *i: _conv(R.at(*i), R.kind, A.kind))
         del ex.st.heap[r.id]
         ex.writeback(A)
+        self._write_through(ex, a)
         return a
+
+    def _write_through(self, ex, ref):
+        """A (1, n) row view of a vector (atleast_2d, opt-in ``np_views``) was written: the vector holds the same values."""
+        base = ex.st.ghost.get("row_views", {}).get(getattr(ref, "id", None))
+        if base is not None and base.id in ex.st.heap:
+            V, B = _arr(ex, ref), _arr(ex, base)
+            B.elems = _NP.lam(1, lambda j: V.at(z3.IntVal(0), j))
+            ex.writeback(B)
+            self._write_through(ex, base)
+
+    def _mask_of_nonzero(self, ex, key):
+        """``mask`` when ``key`` is ``mask.nonzero()`` (or its only item) of a vector mask unchanged since (opt-in ``nonzero_as_mask``)."""
+        if isinstance(key, tuple) and len(key) == 1:
+            key = key[0]
+        if not (getattr(ex.contract, "nonzero_as_mask", False) and _is_arr(ex, key)):
+            return None
+        hit = ex.st.ghost.get("nonzero_of", {}).get(_arr(ex, key).elems.get_id())
+        if hit is None:
+            return None
+        mask, elems_id = hit
+        return mask if mask.id in ex.st.heap and _arr(ex, mask).elems.get_id() == elems_id else None
+
+    def setitem(self, ex, cont, key, v, lineno):
+        if not _is_arr(ex, cont):
+            return NotImplemented
+        mask = self._mask_of_nonzero(ex, key) if _arr(ex, cont).rank == 1 else None
+        if mask is not None:
+            key = mask  # a[mask.nonzero()] = v is a[mask] = v
+        elif cont.id not in ex.st.ghost.get("row_views", {}):
+            return NotImplemented
+        r = _NP.setitem(ex, cont, key, v, lineno)
+        self._write_through(ex, cont)
+        return r
 
     def _matvec(self, ex, a, b, lineno):
         from .engine import PyRaise
@@ -107,6 +141,33 @@ class NpC10Models:
             return _NP.new(ex, "f", (A.shape[0],), _NP.lam(1, lambda i: psum(z3.Lambda([k], A.at(i, k) * B.elems[k]), A.shape[1])))
         return NotImplemented
 
+    def isinstance_(self, ex, v, cls):
+        from .values import ClassV, FunV
+
+        if isinstance(v, FunV) and _precise(ex) and all(isinstance(c, ClassV) for c in (cls if isinstance(cls, tuple) else (cls,))):
+            return False  # a user callable is not an instance of a gemseo class (NotImplementedCallable...)
+        return NotImplemented
+
+    def compare_any(self, ex, op, a, b, lineno):
+        """``a.shape != b.shape`` (tuples of symbolic dimensions) and ``a.dtype != "bool"``."""
+        if op not in ("Eq", "NotEq") or not _precise(ex):
+            return NotImplemented
+        t = None
+        if isinstance(a, tuple) and isinstance(b, tuple) and any(isinstance(x, SV) for x in a + b) and all(ex.num(x) is not None for x in a + b):
+            t = z3.And(*[ex.num(x)[0] == ex.num(y)[0] for x, y in zip(a, b)]) if len(a) == len(b) else z3.BoolVal(False)
+        else:
+            for x, y in ((a, b), (b, a)):
+                if isinstance(x, SV) and x.ty.name == "Rec[dtype]" and isinstance(y, str):
+                    from .npmodel import DTYPE
+                    from .values import str_lit
+
+                    k = {"bool": "b", "float": "f", "float64": "f", "int": "i", "int64": "i"}.get(y)
+                    t = DTYPE.accessor("kind")(x.term) == str_lit(k) if k else z3.BoolVal(False)
+        if t is None:
+            return NotImplemented
+        t = z3.simplify(t if op == "Eq" else z3.Not(t))
+        return True if z3.is_true(t) else False if z3.is_false(t) else SV(t, TBool)
+
     def equals(self, ex, a, b, lineno):
         if isinstance(a, BuiltinV) and isinstance(b, BuiltinV) and a.name.startswith("numpy.") and b.name.startswith("numpy."):
             return a.name == b.name
@@ -118,6 +179,19 @@ class NpC10Models:
         if not (_precise(ex) and _is_arr(ex, cont)):
             return NotImplemented
         A = _arr(ex, cont)
+        mask = self._mask_of_nonzero(ex, key) if A.rank == 1 else None
+        if mask is not None:
+            return _NP.getitem(ex, cont, mask, lineno)  # a[mask.nonzero()] is a[mask]
+        if A.rank == 2 and isinstance(key, tuple) and len(key) == 2 and _NP._is_full(key[0]) and _is_arr(ex, key[1]) and _arr(ex, key[1]).kind == "b" \
+                and _arr(ex, key[1]).rank == 1:
+            # a[:, mask]: the columns selected by the mask, in order (a copy)
+            from .engine import PyRaise
+
+            M = _arr(ex, key[1])
+            if not _NP.same(ex, M.shape[0], A.shape[1], lineno):
+                raise PyRaise("IndexError", lineno)
+            cnt, idx = _NP._nonzero(ex, M)
+            return _NP.new(ex, A.kind, (A.shape[0], cnt), _NP.lam(2, lambda i, j: A.at(i, idx[j])))
         if A.rank == 1 and isinstance(key, tuple) and len(key) == 2 and _NP._is_full(key[0]) and isinstance(key[1], BuiltinV) and key[1].name == "numpy.newaxis":
             return _NP.new(ex, A.kind, (A.shape[0], z3.IntVal(1)), _NP.lam(2, lambda i, j: A.elems[i]))
         return NotImplemented
@@ -127,6 +201,10 @@ class NpC10Models:
         if not (isinstance(name, str) and name.startswith("np.") and _is_arr(ex, recv)):
             return NotImplemented
         A = _arr(ex, recv)
+        if name == "np.nonzero" and not args and not kwargs and A.rank == 1 and getattr(ex.contract, "nonzero_as_mask", False):
+            r = _NP.call_method(ex, recv, name, args, kwargs, lineno)
+            ex.st.ghost.setdefault("nonzero_of", {})[_arr(ex, r[0]).elems.get_id()] = (recv, A.elems.get_id())
+            return r
         if name == "np.flatten" and not args and not kwargs:
             if A.rank == 1:
                 return _NP.new(ex, A.kind, A.shape, A.elems)
@@ -197,8 +275,13 @@ class NpC10Models:
             A = _arr(ex, a0)
             if A.rank == 2:
                 return a0  # numpy returns the array itself
-            ex.assumed.add("numpy.atleast_2d of a vector: a (1, n) copy (numpy returns a view; no later in-place write to it in the verified code)")
-            return _NP.new(ex, A.kind, (z3.IntVal(1), A.shape[0]), _NP.lam(2, lambda i, j: A.elems[j]))
+            r = _NP.new(ex, A.kind, (z3.IntVal(1), A.shape[0]), _NP.lam(2, lambda i, j: A.elems[j]))
+            if getattr(ex.contract, "np_views", False):
+                # numpy returns the view v[newaxis, :]: a later in-place write to it is written through to the vector (setitem / `op=` hooks below)
+                st.ghost.setdefault("row_views", {})[r.id] = a0
+            else:
+                ex.assumed.add("numpy.atleast_2d of a vector: a (1, n) copy (numpy returns a view; no later in-place write to it in the verified code)")
+            return r
         if name == "numpy.tile" and len(args) == 2 and _is_arr(ex, a0) and isinstance(args[1], tuple) and len(args[1]) == 2:
             A = _arr(ex, a0)
             r0, r1 = ex.num(args[1][0]), ex.num(args[1][1])
@@ -276,7 +359,9 @@ class NpC10Models:
             return NotImplemented
         f = z3.Function(ty.fname, *[t.sort() for t in ty.args], ty.ret.sort())  # same term as models.call_funv
         ex.assumed.add(f"uninterpreted:{ty.fname}")
-        r = ty.ret.project(st, f(*[t.embed(st, a) for t, a in zip(ty.args, args)]))
+        terms = [t.embed(st, a) for t, a in zip(ty.args, args)]
+        r = ty.ret.project(st, f(*terms))
+        st.ghost.setdefault("funv_calls", []).append((fv.ty.fname, terms, f(*terms)))  # (callable, argument terms, result term), for specifications
         if _is_arr(ex, r):
             A = _arr(ex, r)
             ex.st.ghost.setdefault("funv_arrays", []).append((fv.ty.fname, r, A.shape, A.elems))
